@@ -50,6 +50,17 @@ func genSchema(r *Rng, o *Out) (*jsonapi.Schema, []stype) {
 			if err != nil {
 				panic("genSchema: BuildType: " + err.Error())
 			}
+			// what was built is what the struct declares (FromOne is not declared by a struct):
+			// the built type is every later oracle's expectation, so it is compared here with
+			// the type the struct was made from instead of being taken on trust
+			decl := copyTypeIndep(typ)
+			for k, rel := range decl.Rels {
+				rel.FromOne = false
+				decl.Rels[k] = rel
+			}
+			if sxType(stripNewFunc(bt)) != sxType(decl) {
+				panic("genSchema: BuildType built " + sxType(stripNewFunc(bt)) + " from the struct declaring " + sxType(decl))
+			}
 			typ = bt
 			o.stat("type.backed")
 		} else {
@@ -256,8 +267,8 @@ func sxDocResult(d *jsonapi.Document) string {
 
 func conforms(res jsonapi.Resource, s *jsonapi.Schema) string {
 	t := res.GetType()
-	st := s.GetType(t.Name)
-	if t.Name == "" || st.Name == "" {
+	st, inSchema := lookupTypeIndep(s, t.Name) // the schema's own list, not Schema.GetType
+	if t.Name == "" || !inSchema {
 		return "resource type " + t.Name + " is not in the schema"
 	}
 	for name, a := range st.Attrs {
@@ -670,7 +681,7 @@ func suiteBytes(r *Rng, n int, thorough bool, o *Out) {
 				}
 			default:
 				obs = "ok " + sxIdent(iden)
-				if !s.HasType(iden.Type) {
+				if !hasTypeIndep(s, iden.Type) {
 					pv = "FAIL[C05]:C05 identifier type not in schema"
 				}
 			}
@@ -704,7 +715,7 @@ func suiteBytes(r *Rng, n int, thorough bool, o *Out) {
 				is := make([]string, len(idens))
 				for i := range idens {
 					is[i] = sxIdent(idens[i])
-					if !s.HasType(idens[i].Type) {
+					if !hasTypeIndep(s, idens[i].Type) {
 						pv = "FAIL[C05]:C05 identifier type not in schema"
 					}
 				}
@@ -737,9 +748,9 @@ func partialVerdict(part, full jsonapi.Resource, data []byte, s *jsonapi.Schema)
 	if json.Unmarshal(data, &sk) != nil {
 		return "FAIL[C13]:C13 accepted undecodable payload"
 	}
-	st := s.GetType(sk.Type)
+	st, inSchema := lookupTypeIndep(s, sk.Type) // the schema's own list, not Schema.GetType
 	pt := part.GetType()
-	if pt.Name != st.Name {
+	if !inSchema || pt.Name != st.Name {
 		return "FAIL[C13]:C13 partial resource's type name"
 	}
 	wantA := sortedKeys(sk.Attributes)
@@ -914,8 +925,8 @@ func suiteLiterals(r *Rng, n int, thorough bool, o *Out) {
 	s := &jsonapi.Schema{}
 	typ := jsonapi.Type{Name: "t"}
 	for k := 1; k <= 14; k++ {
-		putAttr(&typ, jsonapi.Attr{Name: jsonapi.GetAttrTypeString(k, false), Type: k})
-		putAttr(&typ, jsonapi.Attr{Name: "n" + jsonapi.GetAttrTypeString(k, false), Type: k, Nullable: true})
+		putAttr(&typ, jsonapi.Attr{Name: kindNameIndep(k, false), Type: k})
+		putAttr(&typ, jsonapi.Attr{Name: "n" + kindNameIndep(k, false), Type: k, Nullable: true})
 	}
 	putAttr(&typ, jsonapi.Attr{Name: "type", Type: jsonapi.AttrTypeString}) // a legal field name
 	putAttr(&typ, jsonapi.Attr{Name: "links", Type: jsonapi.AttrTypeInt, Nullable: true})
@@ -942,6 +953,9 @@ func suiteLiterals(r *Rng, n int, thorough bool, o *Out) {
 	if bt, err := jsonapi.BuildType(reflect.New(structTypeFor(typ)).Interface()); err == nil && sxType(stripNewFunc(bt)) == sxType(typ) {
 		putType(sB, bt)
 		ssxB = sxSSchema([]stype{{bt, true}})
+	} else {
+		// (not a silent fall-back to the soft type: a third of the suite would go unrun)
+		panic("literals: BuildType does not build the declared type from its struct")
 	}
 	force := 0 // 1: into the soft type, 2: into the struct-built type, 0: drawn
 	emitOne := func(name, lit string) {
@@ -955,14 +969,14 @@ func suiteLiterals(r *Rng, n int, thorough bool, o *Out) {
 		obs, pv, res := runUnmarshalRes("UnmarshalResource", data, s, false)
 		if res != nil {
 			if m := faithful(a, strings.TrimSpace(lit), res.Get(name)); m != "" {
-				pv = "FAIL:" + jsonapi.GetAttrTypeString(a.Type, a.Nullable) + ": " + m
+				pv = "FAIL:" + kindNameIndep(a.Type, a.Nullable) + ": " + m
 			} else if m := conforms(res, s); m != "" {
 				pv = "FAIL:" + m
 			} else {
-				// absent fields hold their zero value
-				fresh := newSoft(typ)
-				for _, f := range typ.Fields() {
-					if f != name && canonSx(res.Get(f)) != canonSx(fresh.Get(f)) {
+				// absent fields hold their zero value (the harness's own zero, not what a
+				// fresh resource of the library reads)
+				for _, f := range fieldsIndep(typ) {
+					if f != name && canonSx(res.Get(f)) != canonSx(zeroFieldIndep(typ, f)) {
 						pv = "FAIL:absent field " + f + " is not zero"
 					}
 				}
@@ -972,9 +986,9 @@ func suiteLiterals(r *Rng, n int, thorough bool, o *Out) {
 					pv = "FAIL:" + m
 				}
 			}
-			o.stat("accepted." + jsonapi.GetAttrTypeString(a.Type, false))
+			o.stat("accepted." + kindNameIndep(a.Type, false))
 		} else {
-			o.stat("rejected." + jsonapi.GetAttrTypeString(a.Type, false))
+			o.stat("rejected." + kindNameIndep(a.Type, false))
 		}
 		o.emit(lst("unm", "res", ssx, sxResSke(data)), obs, pv)
 		if r.chance(1, 4) {
@@ -984,7 +998,7 @@ func suiteLiterals(r *Rng, n int, thorough bool, o *Out) {
 				if _, has := part.Attrs()[name]; !has {
 					pvP = "FAIL:attribute " + name + " of the payload is not in the partial resource"
 				} else if m := faithful(a, strings.TrimSpace(lit), part.Get(name)); m != "" {
-					pvP = "FAIL:partial, " + jsonapi.GetAttrTypeString(a.Type, a.Nullable) + ": " + m
+					pvP = "FAIL:partial, " + kindNameIndep(a.Type, a.Nullable) + ": " + m
 				}
 			}
 			o.stat("partial")
@@ -995,13 +1009,13 @@ func suiteLiterals(r *Rng, n int, thorough bool, o *Out) {
 		// exhaustive for the 8- and 16-bit kinds over a window wider than their range
 		for _, k := range []int{jsonapi.AttrTypeInt8, jsonapi.AttrTypeUint8} {
 			for i := -400; i <= 400; i++ {
-				emitOne(jsonapi.GetAttrTypeString(k, false), itoa(i))
+				emitOne(kindNameIndep(k, false), itoa(i))
 			}
 		}
 		for _, k := range []int{jsonapi.AttrTypeInt16, jsonapi.AttrTypeUint16} {
 			for i := -70000; i <= 70000; i += 1 {
 				if i%7 == 0 || i > 65000 || i < -32000 || (i > 32000 && i < 33000) {
-					emitOne(jsonapi.GetAttrTypeString(k, false), itoa(i))
+					emitOne(kindNameIndep(k, false), itoa(i))
 				}
 			}
 		}
@@ -1021,7 +1035,7 @@ func suiteLiterals(r *Rng, n int, thorough bool, o *Out) {
 			simple = `""`
 		}
 		for force = 1; force <= 2; force++ {
-			for _, nm := range []string{jsonapi.GetAttrTypeString(k, false), "n" + jsonapi.GetAttrTypeString(k, false)} {
+			for _, nm := range []string{kindNameIndep(k, false), "n" + kindNameIndep(k, false)} {
 				emitOne(nm, "null")
 				emitOne(nm, simple)
 			}
@@ -1030,7 +1044,7 @@ func suiteLiterals(r *Rng, n int, thorough bool, o *Out) {
 	force = 0
 	for c := 0; c < n; c++ {
 		k := 1 + r.IntN(14)
-		name := jsonapi.GetAttrTypeString(k, false)
+		name := kindNameIndep(k, false)
 		if r.bool() {
 			name = "n" + name
 		}
@@ -1085,7 +1099,7 @@ func suiteLiterals(r *Rng, n int, thorough bool, o *Out) {
 			var am, rm []string
 			for _, k := range kindsUsed {
 				if r.chance(1, 3) {
-					name := jsonapi.GetAttrTypeString(k, false)
+					name := kindNameIndep(k, false)
 					if r.bool() {
 						name = "n" + name
 					}
@@ -1136,13 +1150,12 @@ func suiteLiterals(r *Rng, n int, thorough bool, o *Out) {
 				pvD = "FAIL:the collection does not come back with its elements"
 				break
 			}
-			fresh := newSoft(typ)
 			for e := 0; e < ne && pvD == "ok"; e++ {
 				res := col.At(e)
 				if res.Get("id") != any(elems[e].id) {
 					pvD = fmt.Sprintf("FAIL:element %d has id %q, payload says %q", e, res.Get("id"), elems[e].id)
 				}
-				for _, f := range typ.Fields() {
+				for _, f := range fieldsIndep(typ) {
 					if lit, ok := elems[e].attrs[f]; ok {
 						if m := faithful(typ.Attrs[f], lit, res.Get(f)); m != "" {
 							pvD = fmt.Sprintf("FAIL:element %d attribute %s: %s", e, f, m)
@@ -1151,7 +1164,7 @@ func suiteLiterals(r *Rng, n int, thorough bool, o *Out) {
 						if m := linkageVerdict(res, f, typ.Rels[f], obj); m != "ok" {
 							pvD = fmt.Sprintf("%s (element %d, %s)", m, e, f)
 						}
-					} else if canonSx(res.Get(f)) != canonSx(fresh.Get(f)) {
+					} else if canonSx(res.Get(f)) != canonSx(zeroFieldIndep(typ, f)) {
 						pvD = fmt.Sprintf("FAIL:element %d: field %s is absent from the element but reads %s", e, f, canonSx(res.Get(f)))
 					}
 				}
@@ -1233,7 +1246,7 @@ func suiteLiterals(r *Rng, n int, thorough bool, o *Out) {
 func remarshalVerdict(res jsonapi.Resource, typ jsonapi.Type, attrs, rels map[string]string) string {
 	relData := map[string][]string{typ.Name: sortedKeys(typ.Rels)}
 	var out []byte
-	if p, msg := guard(func() { out = jsonapi.MarshalResource(res, "", typ.Fields(), relData) }); p {
+	if p, msg := guard(func() { out = jsonapi.MarshalResource(res, "", fieldsIndep(typ), relData) }); p {
 		return "re-marshaling the accepted resource panicked: " + msg
 	}
 	n, err := parseJSON(out)
